@@ -84,6 +84,7 @@ func main() {
 			for _, r := range rules {
 				r(c)
 			}
+			ruleSizeThresholds(c)
 		}()
 		if *only != "" {
 			var keep []*Obligation
